@@ -519,7 +519,89 @@ def rule_r10(chk, rid="C03-R10"):
             chk.undecided(rid, f"fords.kalmans.{q}[loop over periods]", f"iterable not evaluable: {ex}", km.loc(loops[0]))
 
 
+def rule_r11(chk, rid="C03-R11"):
+    chk.rule(rid, "every output store that is present is processed, whichever others are absent: _OutputStore.rescale_stds rescales the "
+             "variants of each of predict_std / update_std / smooth_std that is not None, and _OutputStore.extend extends every slot that "
+             "is not None - by finite evaluation of the method bodies on all 2^n present/absent combinations with recording stand-ins",
+             floor=2, shape_independent=True)
+    import itertools
+    from .. import fin
+    km = chk.repo.mod(KMOD)
+    cls = km.classes().get("_OutputStore") if hasattr(km, "classes") else None
+    f = km.func("_OutputStore.rescale_stds")
+    chk.saw(km, "_OutputStore.rescale_stds")
+    names = None
+    for n in ast.walk(f):
+        if isinstance(n, ast.For) and isinstance(n.iter, (ast.Tuple, ast.List)) and all(isinstance(e, ast.Constant) and isinstance(e.value, str) for e in n.iter.elts):
+            names = [e.value for e in n.iter.elts]
+    std_slots = sorted(x for x in _output_store_slots(km) if x.endswith("_std"))
+    if names is None:
+        names = std_slots
+    bad = None
+    n_comb = 0
+    try:
+        for present in itertools.product((False, True), repeat=len(std_slots)):
+            log = []
+            def store(nm):
+                return fin.FinObj(_dataslate=fin.FinObj(_variants=[fin.FinObj(rescale_data=(lambda k, _n=nm, _i=i: log.append((_n, _i, k)))) for i in range(2)]),
+                                  rescale_data=(lambda k, _n=nm: log.extend([(_n, 0, k), (_n, 1, k)])))
+            me = fin.FinObj(**{nm: (store(nm) if p_ else None) for nm, p_ in zip(std_slots, present)})
+            fin.run_function(f, {params(f)[0]: me, params(f)[1]: 4}, funcs={"_covariances.sqrt_positive": lambda x: ("sqrt", x), "_np.sqrt": lambda x: ("sqrt", x)})
+            n_comb += 1
+            want = {(nm, i) for nm, p_ in zip(std_slots, present) if p_ for i in range(2)}
+            got = {(nm, i) for nm, i, _ in log}
+            wrong_scale = [k for _, _, k in log if k != ("sqrt", 4)]
+            if got != want or wrong_scale or len(log) != len(want):
+                miss = sorted({nm for nm, _ in want - got})
+                bad = (f"with {[nm for nm, p_ in zip(std_slots, present) if p_]} present and the others None, "
+                       + (f"{miss} is never rescaled" if miss else f"stores are rescaled {len(log)} times by {wrong_scale[:1] or 'sqrt(var_scale)'} (expected once each by the square root of var_scale)"))
+                break
+    except (fin.NotFinite, fin.Raised) as ex:
+        chk.undecided(rid, "fords.kalmans._OutputStore.rescale_stds", f"not finitely evaluable: {ex}", km.loc(f))
+    else:
+        chk.ob(rid, "fords.kalmans._OutputStore.rescale_stds", bad is None, bad or f"all {n_comb} present/absent combinations of {std_slots}: each present store rescaled once "
+               "per variant by sqrt(var_scale)", km.loc(f), sure=True)
+    g = km.func("_OutputStore.extend")
+    chk.saw(km, "_OutputStore.extend")
+    slots = sorted(_output_store_slots(km))
+    bad = None
+    n_comb = 0
+    try:
+        for present in itertools.product((False, True), repeat=len(slots)):
+            log = []
+            me = fin.FinObj(**{nm: (fin.FinObj(extend=(lambda o, _n=nm: log.append((_n, o)))) if p_ else None) for nm, p_ in zip(slots, present)}, **{"__slots__": tuple(slots)})
+            other = fin.FinObj(**{nm: ("other", nm) for nm in slots}, **{"__slots__": tuple(slots)})
+            fin.run_function(g, {params(g)[0]: me, params(g)[1]: other})
+            n_comb += 1
+            want = sorted((nm, ("other", nm)) for nm, p_ in zip(slots, present) if p_)
+            if sorted(log) != want:
+                bad = f"with {[nm for nm, p_ in zip(slots, present) if p_]} present: extended {sorted(log)}, expected each present slot with its namesake"
+                break
+    except (fin.NotFinite, fin.Raised) as ex:
+        chk.undecided(rid, "fords.kalmans._OutputStore.extend", f"not finitely evaluable: {ex}", km.loc(g))
+    else:
+        chk.ob(rid, "fords.kalmans._OutputStore.extend", bad is None, bad or f"all {n_comb} present/absent combinations of {len(slots)} slots: every present slot extended "
+               "with the same slot of the other store", km.loc(g), sure=True)
+
+
+def _output_store_slots(km):
+    from .. import fin
+    for n in ast.walk(km.tree):
+        if isinstance(n, ast.ClassDef) and n.name == "_OutputStore":
+            env = {}
+            for st in n.body:
+                if isinstance(st, ast.Assign) and len(st.targets) == 1 and isinstance(st.targets[0], ast.Name):
+                    try:
+                        env[st.targets[0].id] = fin.ev(st.value, env)
+                    except fin.NotFinite:
+                        pass
+            if isinstance(env.get("__slots__"), tuple) and all(isinstance(x, str) for x in env["__slots__"]):
+                return list(env["__slots__"])
+    raise AnalysisError("anchor vanished: _OutputStore.__slots__")
+
+
 def run(chk):
+    chk.guard(rule_r11, chk)
     chk.guard(rule_r1_r2, chk)
     chk.guard(rule_r7, chk)
     chk.guard(rule_r3_r4, chk)
@@ -531,6 +613,8 @@ def run(chk):
     chk.guard(c01.rule_r4, chk, rid="C03-R9")
     from .. import unused as _unused
     chk.guard(_unused.apply, chk, "C03-R91")
+    from .. import basis as _basis
+    chk.guard(_basis.apply, chk, "C03-R12")
     from .. import args as _args
     chk.guard(_args.apply, chk, "C03-R90", {'fords'}, 1)
     chk.assumptions = [
